@@ -668,13 +668,13 @@ def build_units(obs, tier, rng, seed):
     scales = [["dec", k] for k in DECADES[tier]] + [["bin", j] for j in BINS[tier]]
     nb = [["dec", 0], ["bin", 0], ["dec", -6]] if tier == "quick" else scales
     units = []
+    sub = stratified(pts, PER_GROUP[tier], rng)
+    sscales = [["dec", k] for k in SINGLE_DEC[tier]] + [["bin", j] for j in SINGLE_BIN[tier]]
+    for i in range(0, len(sub), 100):                     # single-call units first: their failures get replay files first
+        units.append(dict(mode="single", pts=sub[i:i + 100], scales=sscales, nb_scales=[["dec", 0]], ms=POW_M[tier], seed=seed))
     per = 600 if tier == "quick" else 400
     for i in range(0, len(pts), per):
         units.append(dict(mode="vmapBatch", pts=pts[i:i + per], scales=scales, nb_scales=nb, ms=POW_M[tier], seed=seed))
-    sub = stratified(pts, PER_GROUP[tier], rng)
-    sscales = [["dec", k] for k in SINGLE_DEC[tier]] + [["bin", j] for j in SINGLE_BIN[tier]]
-    for i in range(0, len(sub), 100):
-        units.append(dict(mode="single", pts=sub[i:i + 100], scales=sscales, nb_scales=[["dec", 0]], ms=POW_M[tier], seed=seed))
     return units, len(pts)
 
 
@@ -723,7 +723,8 @@ def main(tier, replay=None):
 
     case = None
     if replay:
-        case = json.load(open(replay))["case"]
+        stored = json.load(open(replay))
+        case, stored_clause = stored["case"], stored.get("clause")
         tier_of_case = case.get("tier", tier)
     else:
         tier_of_case = tier
@@ -783,13 +784,16 @@ def main(tier, replay=None):
     byp = {}
 
     def on_fail(tid_, l, clause):
+        if replay and clause != stored_clause:            # a replay reports the stored clause of the stored case
+            return
         unit = cases[tid_]
         e = traces[tid_ - 1]["ev"][l - 1]
         o = [p for p in unit["pts"] if point_id(p) == {k: e[k] for k in ("kind", "d", "rot", "g", "sp", "a")}][0]
         ft = features(o)
-        sig = (clause, unit["mode"], ft["kind"], ft["mult"], ft["mid_dev_eig_zero"], e["exact"])
+        sig = (clause, unit["mode"], ft["mult"], "rank_deficient" if ft["rank_deficient"] else "full_rank",
+               "exact_input" if e["exact"] else "rounded_input")
         byp[sig] = byp.get(sig, 0) + 1
-        if byp[sig] > 2 and not replay:
+        if byp[sig] > 1 and not replay:                   # every failure is counted; one replayable witness per signature
             return
         one = dict(unit, pts=[o])
         w = find_witness(one, evs, clause, e)
@@ -803,7 +807,7 @@ def main(tier, replay=None):
     if traces:
         trace.validate("SymTensorTrace.tla", "SymTensorTrace.cfg", traces, rep, on_fail=on_fail, chunk=8)
     if byp:
-        rep.coverage["failures_by_clause_mode_kind_mult_mid0_exact"] = {"/".join(map(str, k)): v for k, v in sorted(byp.items(), key=str)}
+        rep.coverage["failures_by_clause_mode_mult_rank_exactness"] = {"/".join(map(str, k)): v for k, v in sorted(byp.items(), key=str)}
 
     # ---- dense part
     did = 0
@@ -819,6 +823,8 @@ def main(tier, replay=None):
             rep.machinery("dense lattice point with cond(S) = %g > 2e3" % condS)
 
     def on_dfail(tid_, l, clause):
+        if replay and clause != stored_clause:
+            return
         du, condS, raw = dcases[tid_]
         o = du["o"]
         cd = dict(part="dense", tier=tier_of_case, mode=du["mode"], fn=clause.split("_")[0], n=o["n"], spectrum=o["spec"],
